@@ -110,6 +110,21 @@ class Run(object):
             self.w.write(obj)
             self.records.append(raw)
             return None
+        if op[0] == 'others':
+            # other, unrelated writers are created, used and finalised in the same process in between
+            from cardutil import mciipm
+            before = self.file_bytes()
+            keep = []
+            for i in range(op[1]):
+                g = io.BytesIO()
+                w2 = mciipm.VbsWriter(g, blocked=bool(i % 2))
+                w2.write(b'other %d' % i)
+                w2.close()
+                keep.append((g, w2))
+            self.others = keep            # stay alive: no object address can be recycled
+            if self.file_bytes() != before:
+                return 'finalising other writers changed this file'
+            return None
         if op[0] == 'enter':
             before = self.file_bytes()
             got = self.w.__enter__()
@@ -216,7 +231,8 @@ def replay(cfg, hist):
 def enabled(hist):
     nw = sum(1 for op in hist if op[0] == 'w')
     ne = sum(1 for op in hist if op[0] == 'enter')
-    nf = len(hist) - nw - ne
+    no = sum(1 for op in hist if op[0] == 'others')
+    nf = len(hist) - nw - ne - no
     ops = []
     if nf == 0 and nw < MAX_WRITES:
         ops += [('w', i) for i in range(len(REC_SIZES))]
@@ -226,6 +242,8 @@ def enabled(hist):
     # finalisations (re-using a writer in a second with block)
     if ne < 2 and (not hist or hist[-1][0] != 'enter'):
         ops.append(('enter',))
+    if no < 1 and nf >= 1 and nf < MAX_FINALS:
+        ops.append(('others', 300))       # between two finalisations of this writer
     return ops
 
 
@@ -242,7 +260,7 @@ def expand(batch):
                     acc.transitions += 1
                     acc.case((key, op), nontrivial=True, outcome=op[0])
                     if why:
-                        kind = 'first' if sum(1 for o in h2 if o[0] not in ('w', 'enter')) == 1 else 'repeat'
+                        kind = 'first' if sum(1 for o in h2 if o[0] not in ('w', 'enter', 'others')) == 1 else 'repeat'
                         acc.viol('c11.%s.%s' % (kind, 'blocked' if cfg[1] else 'vbs'),
                                  {'cfg': list(cfg), 'hist': h2, 'seed': _SEED}, why,
                                  'file reads back as exactly the records written; later finalisations change nothing')
@@ -280,7 +298,8 @@ def run(tier, seed):
         'rule': 'BFS over histories write^m (m<=%d, record sizes %s incl. prefix+record = 1012 and > 1 block) followed '
                 'by up to %d finalisations from {close(), __exit__(None), __exit__(exception)}, with __enter__() allowed '
                 'twice anywhere (a with statement enters before it exits; a writer may be used in a second with '
-                'block), for {VbsWriter, '
+                'block) and, between two finalisations, 300 other unrelated writers created and finalised in the same '
+                'process, for {VbsWriter, '
                 'IpmWriter} x {VBS, 1014} x {BytesIO, real file w+b, real file wb}; state key = digest of file bytes, '
                 'file position, every writer and blocker attribute, lengths written, finalised?; every transition '
                 'is executed on a fresh writer rebuilt from the history. Oracle after every finalisation: reference '
@@ -307,7 +326,7 @@ def replay_case(case):
         if _TMP and os.path.isdir(_TMP):
             shutil.rmtree(_TMP, ignore_errors=True)
     if why:
-        kind = 'first' if sum(1 for o in case['hist'] if o[0] not in ('w', 'enter')) == 1 else 'repeat'
+        kind = 'first' if sum(1 for o in case['hist'] if o[0] not in ('w', 'enter', 'others')) == 1 else 'repeat'
         acc.viol('c11.%s.%s' % (kind, 'blocked' if case['cfg'][1] else 'vbs'), case, why)
     return acc
 
